@@ -252,29 +252,29 @@ open Xsel Xsel.Xml Xsel.XmlL Xsel.Store
     both fail.  (`Spec.runKF`: with the recorded `round` deviation; `…_noRound` below: without.) -/
 theorem xml_query_refines_spec (top : XNodes) (h : WFDoc top)
     (env : Env) (henv : EnvOk (Store.build (Xml.events (Xml.docTokens top))) env) (e : Expr)
-    (hsum : sumSafe true e = true) (hb : prefixesBound env e = true) :
+    (hsum : sumSafe true e = true) :
     let a := Store.build (Xml.events (Xml.docTokens top))
     wfb a = true ∧ Spec.describe a = Xml.dataModel top ∧
       Res.Equiv (Model.run a env 0 e) (Spec.runKF a env 0 e) :=
   ⟨(readxml_refines top h).1, (readxml_refines top h).2,
-    (Chain.xml_query_refines_spec top h env henv e hsum hb).2⟩
+    (Chain.xml_query_refines_spec top h env henv e hsum).2⟩
 
 theorem xml_query_refines_spec_noRound (top : XNodes) (h : WFDoc top)
     (env : Env) (henv : EnvOk (Store.build (Xml.events (Xml.docTokens top))) env) (e : Expr)
-    (hsum : sumSafe true e = true) (hb : prefixesBound env e = true)
+    (hsum : sumSafe true e = true)
     (hnr : Chain.noRound e = true) :
     let a := Store.build (Xml.events (Xml.docTokens top))
     Res.Equiv (Model.run a env 0 e) (Spec.run a env 0 e) :=
-  Chain.xml_query_refines_spec_noRound top h env henv e hsum hb hnr
+  Chain.xml_query_refines_spec_noRound top h env henv e hsum hnr
 
 /-- **stream_query_refines_spec** — the same for the tree built from ANY event stream that honours
     the Parser contract (`StoreL.Ordered`) -/
 theorem stream_query_refines_spec (evs : List Ev) (ho : StoreL.Ordered evs)
     (env : Env) (henv : EnvOk (Store.build evs) env) (e : Expr)
-    (hsum : sumSafe true e = true) (hb : prefixesBound env e = true) :
+    (hsum : sumSafe true e = true) :
     wfb (Store.build evs) = true ∧
       Res.Equiv (Model.run (Store.build evs) env 0 e) (Spec.runKF (Store.build evs) env 0 e) :=
-  Chain.stream_query_refines_spec evs ho env henv e hsum hb
+  Chain.stream_query_refines_spec evs ho env henv e hsum
 
 /-- the events of the documented JSON trees contain no namespace or attribute event, hence honour
     the Parser contract -/
@@ -286,11 +286,11 @@ theorem json_events_ordered (vs : List JVal) : StoreL.Ordered (vs.flatMap Json.e
     contract and a query on it evaluates as the specification says -/
 theorem json_query_refines_spec (vs : List JVal)
     (env : Env) (henv : EnvOk (Store.build (vs.flatMap Json.eventsOf)) env) (e : Expr)
-    (hsum : sumSafe true e = true) (hb : prefixesBound env e = true) :
+    (hsum : sumSafe true e = true) :
     Json.adapter (vs.flatMap Json.tokensOf) = some (vs.flatMap Json.eventsOf) ∧
     wfb (Store.build (vs.flatMap Json.eventsOf)) = true ∧
     Res.Equiv (Model.run (Store.build (vs.flatMap Json.eventsOf)) env 0 e)
       (Spec.runKF (Store.build (vs.flatMap Json.eventsOf)) env 0 e) :=
-  Chain.json_query_refines_spec vs env henv e hsum hb
+  Chain.json_query_refines_spec vs env henv e hsum
 
 end Xsel.C09
